@@ -39,6 +39,8 @@ fn mappings_strategy() -> BoxedStrategy<Case> {
       1 => (1usize..40, any::<bool>(), any::<u16>()).prop_map(|(n, hi, end)| {
         format!("{}{}{}", ["/", "+", "g", "h"][(end & 3) as usize], if hi { "/" } else { "g" }.repeat(n - 1), ["A", "B", "D", "f", "P"][idx(end, 5)])
       }),
+      // one segment with very many fields (only five mean anything)
+      1 => (1usize..700, any::<u16>()).prop_map(|(n, k)| ["A", "C", "D"][idx(k, 3)].repeat(n)),
       // huge deltas
       1 => (0u64..u64::MAX, any::<bool>()).prop_map(|(v, neg)| {
         let mut s = String::new();
